@@ -266,7 +266,9 @@ func c11SlowPeerLateFrame(r *Run) {
 	}
 	// the late frame for the abandoned stream (the read loop may be held until the peer reads again)
 	late := make(chan bool, 1)
-	go func() { late <- c11Feed(sc, c11WithBody(c11PeerEnv(5, mBidi, "peer", "srv"), []byte("late")), 6*time.Second+2*hangTimeout) }()
+	go func() {
+		late <- c11Feed(sc, c11WithBody(c11PeerEnv(5, mBidi, "peer", "srv"), []byte("late")), 6*time.Second+2*hangTimeout)
+	}()
 	time.Sleep(3500 * time.Millisecond)
 	// the peer reads on
 	bodies, sawReset := 1, false
